@@ -345,6 +345,11 @@ pub fn run_script(cache: AnyCache, script: &Value) -> Result<Value, BoxedError> 
                     None => json!({"o":"none"}),
                 });
             }
+            "getp" => {
+                // a recorded look-up that observes presence only (stress graphs: values do not nest)
+                let r = with_storable!(ty, T => cache.get_cached::<T>(id).is_some(), panic!("bad type {ty}"));
+                obs.push(json!({"o":"bool","b":r}));
+            }
             "contains" => {
                 let r = with_storable!(ty, T => cache.contains::<T>(id), panic!("bad type {ty}"));
                 obs.push(json!({"o":"bool","b":r}));
@@ -387,7 +392,7 @@ pub fn run_script(cache: AnyCache, script: &Value) -> Result<Value, BoxedError> 
             "norec" => {
                 let r = cache.no_record(|| run_script(cache, &ins["body"]));
                 match r {
-                    Ok(v) => obs.push(json!({"o":"val","v":v})),
+                    Ok(v) => obs.push(json!({"o":"blind","v":v})),
                     Err(e) => return Err(e),
                 }
             }
